@@ -124,3 +124,19 @@ Definition with_fault (l : list sysact) (i : nat) : list sysact * bool :=
 
 Definition known_class_04 (a : sysact) : bool :=
   match a with AChmod _ | AUtimens _ | AFsync _ => true | _ => false end.
+
+(* ---- the documented step order of the three functions whose CALL ORDER the translator extracts
+   (codes: 20 open source, 21 fstat source, 22 probe destination, 23 same-file check, 24 backup decision,
+   25 backup name (directory scan), 1 rename, 2 create+truncate, 3 ftruncate, 4 clone attempt,
+   30 sparseness test, 31 sparse walk, 32 plain loop, 40 CopyHandle::new, 41 Arc::new, 42 extent map,
+   43 merge, 44 queue a range, 45 queue the whole file, 97 closure, 98 return) ---- *)
+Definition copy_new_steps : list N := [20; 21; 22; 23; 98; 24; 25; 1; 2; 3].
+Definition copy_file_steps : list N := [4; 98; 30; 31; 32].
+Definition queue_file_blocks_steps : list N := [40; 4; 98; 41; 97; 30; 42; 43; 44; 45; 45].
+
+(* the system calls of CopyHandle::new in the model, as step codes *)
+Definition step_code_of (a : sysact) : list N :=
+  match a with
+  | AOpenRO (KSrc _) => [20] | AStat (KSrc _) => [21] | AStat (KDst _) => [22] | AReaddir _ => [25]
+  | ARename _ _ => [1] | ACreateTrunc _ => [2] | AFtruncate _ _ => [3] | _ => []
+  end.
